@@ -333,6 +333,9 @@ func Each(c *Ctx, r *Result, stream string, n int, f func(i int, rng *rand.Rand)
 		go func(k int) {
 			defer wg.Done()
 			for {
+				for atomic.LoadInt32(&quiesce) > 0 {
+					time.Sleep(5 * time.Millisecond)
+				}
 				i := int(atomic.AddInt64(&next, 1))
 				if i >= n {
 					return
@@ -424,13 +427,26 @@ func (j *Journal) Do(label string, input []byte, f func()) {
 
 // HangWatch runs f under a per-call watchdog: if f has not returned after limit, the hang is
 // recorded as a violation, the result is flushed and the child exits (the call cannot be cancelled).
+//
+// A wall-clock limit alone would turn an overloaded machine into a verdict, so the limit has two phases: when
+// the call has not returned after limit, all other workers of this process are held before their next case
+// (their current cases take microseconds) and the call gets the same time again with the process otherwise
+// idle. Returning in the second phase is reported as inconclusive ("slow under load"), not as a hang.
 func HangWatch(c *Ctx, r *Result, sig, label string, input interface{}, limit time.Duration, f func()) {
 	done := make(chan struct{})
 	go func() {
 		select {
 		case <-done:
+			return
 		case <-time.After(limit):
-			r.Violate(sig, fmt.Sprintf("%s did not return within %v", label, limit), input)
+		}
+		atomic.AddInt32(&quiesce, 1)
+		select {
+		case <-done:
+			atomic.AddInt32(&quiesce, -1)
+			r.Inconcl("%s took longer than %v and returned once the other workers were held: slow under load, not a hang", label, limit)
+		case <-time.After(limit):
+			r.Violate(sig, fmt.Sprintf("%s did not return within %v, nor within another %v with every other worker of the process held", label, limit, limit), input)
 			if c.Flush != nil {
 				c.Flush()
 			}
@@ -440,3 +456,6 @@ func HangWatch(c *Ctx, r *Result, sig, label string, input interface{}, limit ti
 	f()
 	close(done)
 }
+
+// quiesce > 0 holds the workers of Each before they take their next case (see HangWatch).
+var quiesce int32
